@@ -791,6 +791,229 @@ theorem holdsPub_model (self sess : Nat) (g : Group) (seats : List Nat) (ms : Li
   · simp [canTransitionPub]
 
 
+/-! ## the real-run monitor accepts the model's predicted outcome (under A-tss) -/
+
+theorem misbehaved_memberGroup_eq (n i : Nat) (excl : List Nat) (hn : n ≤ 255) (hi : i ∉ excl) :
+    misbehaved (memberGroup n i excl) = misOf n excl := by
+  apply eq_of_sorted_of_mem_iff _ _ (misbehaved_sorted _)
+    ((List.pairwise_lt_range' (s := 1) (n := n)).sublist List.filter_sublist)
+  intro m
+  rw [mem_misbehaved_memberGroup, List.mem_filter, List.mem_range']
+  constructor
+  · rintro ⟨_, a, _, c, d⟩
+    exact ⟨⟨m - 1, by omega, by omega⟩, by simpa using a⟩
+  · rintro ⟨⟨k, hk, rfl⟩, h⟩
+    have hm : 1 + 1 * k ∈ excl := by simpa using h
+    exact ⟨by omega, hm, fun e => hi (e ▸ hm), by omega, by omega⟩
+
+theorem mem_opOf (n : Nat) (excl : List Nat) (m : Nat) :
+    m ∈ opOf n excl ↔ 1 ≤ m ∧ m ≤ n ∧ m ∉ excl := by
+  rw [opOf, List.mem_filter, List.mem_range']
+  constructor
+  · rintro ⟨⟨k, hk, rfl⟩, h⟩; exact ⟨by omega, by omega, by simpa using h⟩
+  · rintro ⟨a, b, c⟩; exact ⟨⟨m - 1, by omega, by omega⟩, by simpa using c⟩
+
+theorem operating_of_op (n : Nat) (excl : List Nat) (i : Nat) (hi : i ∈ opOf n excl) :
+    (memberGroup n i excl).operating = opOf n excl :=
+  operating_set_common n excl i ((mem_opOf n excl i).1 hi).2.2
+
+/-- the model's prediction of a real DKG run: who runs (`runExcluded`: the excluded members too),
+    who completes (A-tss completion), the keys (`tss.pub`), the misbehaved lists, the stored keys -/
+def modelRun {K : Type} [BEq K] (tss : TssKeygen K) (seed n t : Nat) (excl : List Nat)
+    (runExcluded : Bool) : RunObs :=
+  let runners := if runExcluded then List.range' 1 n else opOf n excl
+  let views := runners.map (viewOf n excl)
+  let finished := runners.filter fun i => completes t views (viewOf n excl i)
+  let okm := finished.filter fun i => !excl.contains i
+  let miss := okm.map fun i => misbehaved (memberGroup n i excl)
+  { okm := okm
+    agree := allEq (okm.map fun i => tss.pub (partyKeys seed (memberGroup n i excl)) (t - 1) (toKey seed i))
+    mis := if allEq miss then miss.head? else none
+    ks := okm.all fun i => partyKeys seed (memberGroup n i excl) == (opOf n excl).map (seed + ·)
+      && (partyKeys seed (memberGroup n i excl)).contains (toKey seed i)
+    exjoin := finished.filter fun i => excl.contains i }
+
+theorem allEq_of_forall {α} [BEq α] [LawfulBEq α] (l : List α) (a : α) (h : ∀ x ∈ l, x = a) :
+    allEq l = true := by
+  cases l with
+  | nil => rfl
+  | cons b bs =>
+    simp only [allEq, List.all_eq_true, beq_iff_eq]
+    intro x hx
+    rw [h x (List.mem_cons_of_mem _ hx), h b (by simp)]
+
+theorem completes_op (n t : Nat) (excl : List Nat) (runExcluded : Bool) (i : Nat)
+    (hi : i ∈ opOf n excl) (ht : t ≤ (opOf n excl).length) :
+    completes t ((if runExcluded then List.range' 1 n else opOf n excl).map (viewOf n excl))
+      (viewOf n excl i) = true := by
+  simp only [completes, viewOf, operating_of_op n excl i hi, Bool.and_eq_true, decide_eq_true_eq,
+    List.all_eq_true, List.any_eq_true, List.mem_map, beq_iff_eq]
+  refine ⟨ht, fun p hp => ⟨(p, opOf n excl), ⟨p, ?_, ?_⟩, rfl, rfl⟩⟩
+  · cases runExcluded
+    · simpa using hp
+    · have := (mem_opOf n excl p).1 hp
+      simp only [if_true, List.mem_range']
+      exact ⟨p - 1, by omega, by omega⟩
+  · simp [viewOf, operating_of_op n excl p hp]
+
+theorem not_completes_excluded (n t : Nat) (excl : List Nat) (runners : List Nat) (e : Nat)
+    (he : e ∈ excl) (he1 : 1 ≤ e) (he2 : e ≤ n) (hne : opOf n excl ≠ []) :
+    completes t (runners.map (viewOf n excl)) (viewOf n excl e) = false := by
+  rw [Bool.eq_false_iff]
+  intro h
+  simp only [completes, viewOf, Bool.and_eq_true, decide_eq_true_eq, List.all_eq_true,
+    List.any_eq_true, List.mem_map, beq_iff_eq] at h
+  obtain ⟨m, hm⟩ := List.exists_mem_of_ne_nil _ hne
+  have hmo := (mem_opOf n excl m).1 hm
+  have hme : m ∈ (memberGroup n e excl).operating := by
+    rw [operating_memberGroup, List.mem_filter, List.mem_range']
+    exact ⟨⟨m - 1, by omega, by omega⟩, by simp [hmo.2.2]⟩
+  obtain ⟨w, ⟨j, _, rfl⟩, hj1, hj2⟩ := h.2 m hme
+  simp only at hj1 hj2
+  subst hj1
+  -- member j = m is not excluded: its operating set is `opOf`, which does not contain e
+  rw [operating_of_op n excl j hm] at hj2
+  have : e ∈ opOf n excl := by
+    rw [hj2, operating_memberGroup, List.mem_filter, List.mem_range']
+    exact ⟨⟨e - 1, by omega, by omega⟩, by simp⟩
+  exact ((mem_opOf n excl e).1 this).2.2 he
+
+theorem okm_eq (n t : Nat) (excl : List Nat) (runExcluded : Bool) (ht : t ≤ (opOf n excl).length) :
+    (((if runExcluded then List.range' 1 n else opOf n excl).filter fun i =>
+      completes t ((if runExcluded then List.range' 1 n else opOf n excl).map (viewOf n excl))
+        (viewOf n excl i)).filter fun i => !excl.contains i) = opOf n excl := by
+  rw [List.filter_filter]
+  cases runExcluded
+  · simp only [Bool.false_eq_true, if_false]
+    rw [List.filter_eq_self]
+    intro i hi
+    have hx : excl.contains i = false := by
+      have := ((mem_opOf n excl i).1 hi).2.2
+      simpa using this
+    have := completes_op n t excl false i hi ht
+    simp only [Bool.false_eq_true, if_false] at this
+    rw [hx, this]; rfl
+  · simp only [if_true]
+    show _ = List.filter (fun m => !excl.contains m) (List.range' 1 n)
+    apply List.filter_congr
+    intro i hi
+    cases hx : excl.contains i with
+    | true => rfl
+    | false =>
+      have hio : i ∈ opOf n excl := by
+        unfold opOf; rw [List.mem_filter]; exact ⟨hi, by rw [hx]; rfl⟩
+      have := completes_op n t excl true i hio ht
+      simp only [if_true] at this
+      rw [this]; rfl
+
+/-- **holdsRun_model_under_A_tss**: for every group size (`uint8`), exclusion set, seed and honest
+    threshold that the exclusion leaves intact — with or without the excluded members running — the
+    `run` monitor accepts the outcome the model predicts under A-tss (`TssKeygen.agree` for the key,
+    `completes` for who finishes). -/
+theorem holdsRun_model_under_A_tss {K : Type} [BEq K] [LawfulBEq K] (tss : TssKeygen K)
+    (seed n t : Nat) (excl : List Nat) (runExcluded : Bool) (hn : n ≤ 255)
+    (ht : t ≤ (opOf n excl).length) (ht1 : 1 ≤ t) :
+    holdsRun n t excl (modelRun tss seed n t excl runExcluded) = true := by
+  have hne : opOf n excl ≠ [] := by
+    intro h; rw [h] at ht; simp at ht; omega
+  -- who finishes
+  have hokm : (modelRun tss seed n t excl runExcluded).okm = opOf n excl :=
+    okm_eq n t excl runExcluded ht
+  have hex : (modelRun tss seed n t excl runExcluded).exjoin = [] := by
+    simp only [modelRun, List.filter_filter]
+    rw [List.filter_eq_nil_iff]
+    intro e he
+    have hr : 1 ≤ e ∧ e ≤ n := by
+      cases runExcluded
+      · simp only [Bool.false_eq_true, if_false] at he
+        have := (mem_opOf n excl e).1 he; omega
+      · simp only [if_true, List.mem_range'] at he
+        obtain ⟨k, hk, rfl⟩ := he; omega
+    show ¬ ((excl.contains e && completes t
+      ((if runExcluded then List.range' 1 n else opOf n excl).map (viewOf n excl)) (viewOf n excl e)) = true)
+    cases hx : excl.contains e with
+    | false => simp
+    | true =>
+      rw [not_completes_excluded n t excl _ e (by simpa using hx) hr.1 hr.2 hne]
+      simp
+  obtain ⟨i0, hi0⟩ := List.exists_mem_of_ne_nil _ hne
+  have hkeys : (modelRun tss seed n t excl runExcluded).agree = true := by
+    have e : (modelRun tss seed n t excl runExcluded).agree =
+        allEq ((modelRun tss seed n t excl runExcluded).okm.map fun i =>
+          tss.pub (partyKeys seed (memberGroup n i excl)) (t - 1) (toKey seed i)) := rfl
+    rw [e, hokm]
+    apply allEq_of_forall _ (tss.pub (partyKeys seed (memberGroup n i0 excl)) (t - 1) (toKey seed i0))
+    intro x hx
+    obtain ⟨i, hi, rfl⟩ := List.mem_map.1 hx
+    have a := (mem_opOf n excl i).1 hi
+    have b := (mem_opOf n excl i0).1 hi0
+    exact same_key_under_A_tss tss seed n (t - 1) excl i i0 a.2.2 b.2.2 a.1 a.2.1 b.1 b.2.1
+  have hmis : (modelRun tss seed n t excl runExcluded).mis = some (misOf n excl) := by
+    have e : (modelRun tss seed n t excl runExcluded).mis =
+        (if allEq ((modelRun tss seed n t excl runExcluded).okm.map fun i => misbehaved (memberGroup n i excl))
+         then ((modelRun tss seed n t excl runExcluded).okm.map fun i => misbehaved (memberGroup n i excl)).head?
+         else none) := rfl
+    rw [e, hokm]
+    have hall : ∀ x ∈ (opOf n excl).map (fun i => misbehaved (memberGroup n i excl)), x = misOf n excl := by
+      intro x hx
+      obtain ⟨i, hi, rfl⟩ := List.mem_map.1 hx
+      exact misbehaved_memberGroup_eq n i excl hn ((mem_opOf n excl i).1 hi).2.2
+    rw [allEq_of_forall _ _ hall, if_pos rfl]
+    cases hl : (opOf n excl).map (fun i => misbehaved (memberGroup n i excl)) with
+    | nil => simp at hl; exact absurd hl hne
+    | cons a as => rw [List.head?_cons, hall a (by rw [hl]; simp)]
+  have hks : (modelRun tss seed n t excl runExcluded).ks = true := by
+    have e : (modelRun tss seed n t excl runExcluded).ks =
+        ((modelRun tss seed n t excl runExcluded).okm.all fun i =>
+          partyKeys seed (memberGroup n i excl) == (opOf n excl).map (seed + ·)
+          && (partyKeys seed (memberGroup n i excl)).contains (toKey seed i)) := rfl
+    rw [e, hokm, List.all_eq_true]
+    intro i hi
+    have a := (mem_opOf n excl i).1 hi
+    rw [partyKeys_eq, operating_of_op n excl i hi]
+    have := (ownKey_some seed n i excl a.1 a.2.1).2
+    rw [partyKeys_eq, operating_of_op n excl i hi] at this
+    simp [this]
+  unfold holdsRun
+  rw [hex, hkeys, hmis, hks, hokm]
+  simp
+
+/-- **operating_members_one_key** (C07 as stated, over the model, under A-tss): for every group
+    size, exclusion set `E` and honest threshold `t` with at least `t` members left, in a run of
+    all members (the excluded ones included) exactly the non-excluded members obtain a key share;
+    they all output the same wallet key and the same misbehaved list — the members of `E`,
+    ascending; no member of `E` obtains a share. -/
+theorem operating_members_one_key {K : Type} [BEq K] [LawfulBEq K] (tss : TssKeygen K)
+    (seed n t : Nat) (excl : List Nat) (hn : n ≤ 255) (ht : t ≤ (opOf n excl).length) (ht1 : 1 ≤ t) :
+    let r := modelRun tss seed n t excl true
+    r.okm = opOf n excl ∧ r.exjoin = [] ∧
+    (∀ i ∈ opOf n excl, ∀ j ∈ opOf n excl,
+      tss.pub (partyKeys seed (memberGroup n i excl)) (t - 1) (toKey seed i) =
+        tss.pub (partyKeys seed (memberGroup n j excl)) (t - 1) (toKey seed j)) ∧
+    (∀ i ∈ opOf n excl, misbehaved (memberGroup n i excl) = misOf n excl) ∧
+    (∀ e ∈ excl, e ∉ r.okm) := by
+  intro r
+  have h := holdsRun_model_under_A_tss tss seed n t excl true hn ht ht1
+  have hne : opOf n excl ≠ [] := by
+    intro h; rw [h] at ht; simp at ht; omega
+  have hge : (opOf n excl).length ≠ 0 := by
+    intro h0; exact hne (List.eq_nil_of_length_eq_zero h0)
+  unfold holdsRun at h
+  simp only [Bool.and_eq_true, Bool.or_eq_true, List.isEmpty_iff, Bool.not_eq_true',
+    Bool.and_eq_false_iff, decide_eq_false_iff_not, beq_iff_eq] at h
+  obtain ⟨⟨⟨⟨hex, _⟩, _⟩, _⟩, hok⟩ := h
+  have hokm : r.okm = opOf n excl := okm_eq n t excl true ht
+  refine ⟨hokm, hex, ?_, ?_, ?_⟩
+  · intro i hi j hj
+    have a := (mem_opOf n excl i).1 hi
+    have b := (mem_opOf n excl j).1 hj
+    exact same_key_under_A_tss tss seed n (t - 1) excl i j a.2.2 b.2.2 a.1 a.2.1 b.1 b.2.1
+  · intro i hi
+    exact misbehaved_memberGroup_eq n i excl hn ((mem_opOf n excl i).1 hi).2.2
+  · intro e he hmem
+    rw [hokm] at hmem
+    exact ((mem_opOf n excl e).1 hmem).2.2 he
+
 example : (memberGroup 5 1 [3, 3, 9, 1]).operating = [1, 2, 4, 5] := by decide
 example : misbehaved (memberGroup 5 1 [3, 3, 9, 1]) = [3] := by decide
 example : partyKeys 1000 (memberGroup 5 2 [4]) = [1001, 1002, 1003, 1005] := by decide
